@@ -326,6 +326,36 @@ func TestVerif_C17(t *testing.T) {
 		}
 	})
 
+	// ---- pattern lists built to collide in the radix tree (C01 universe), with probes of every member
+	{
+		U := buildUniverse(t, nil, []string{"http", "https", "ht", "httpss"}, []int{portNone, 1, 8080, 65535, portAny})
+		r.Parallel(pick(r, 32, 256)/scale+1, func(l *Local) {
+			rng := l.Rng
+			for i := 0; i < pick(r, 150, 600); i++ {
+				n := 1 + rng.IntN(12)
+				var strs []string
+				var members []*uPat
+				for j := 0; j < n; j++ {
+					p := choose(rng, U)
+					members = append(members, p)
+					strs = append(strs, p.str)
+				}
+				cfg := cors.Config{Origins: strs, ExtraConfig: cors.ExtraConfig{DangerouslyTolerateSubdomainsOfPublicSuffixes: true}}
+				mw := c17Config(r, l, cfg)
+				l.NontrivialKey(strs...)
+				if mw == nil {
+					continue
+				}
+				for _, m := range members {
+					for k := 0; k < len(m.probes); k += 1 + len(m.probes)/10 {
+						c17Serve(r, l, mw, &cfg, false, actualReq("GET", m.probes[k].str), false)
+						c17Serve(r, l, mw, &cfg, false, preflightReq(m.probes[k].str, "PUT", nil, false), false)
+					}
+				}
+			}
+		})
+	}
+
 	// ---- cfgerrors.All on deep and wide join trees
 	r.Parallel(pick(r, 4, 16), func(l *Local) {
 		for _, depth := range []int{1, 10, 1000, 10000, 100000 / scale} {
